@@ -103,7 +103,10 @@ func init() {
 			}
 		}
 		if env == nil {
-			unsupported("lake.Root.OpenPool: the lake is environment; no VerifEnv_OpenPool model in the harness package")
+			// no environment model: the harness has a real lake (over a model
+			// storage engine) and the real OpenPool runs
+			in.skipIntrinsic = fn.String()
+			return in.callSSA(fr, fn, a, nil)
 		}
 		return in.callSSA(fr, env, []Value{a[2]}, nil)
 	}
